@@ -11,6 +11,7 @@ must restore the array, altered pieces must be refused, arithmetic keeps annotat
 """
 import copy
 import itertools
+import os
 from fractions import Fraction
 
 import numpy as np
@@ -51,7 +52,8 @@ def py_item(it, rep=None):
     k = it[0]
     rep = rep or {}
     if k == 'i':
-        return int(it[1])
+        # `npidx`: only generated once notes/C11_fix_4.diff is accepted (C11.NPIDX), see notes/C11.md §9
+        return np.int64(it[1]) if rep.get('npidx') else int(it[1])
     if k == 's':
         if rep.get('npint'):
             return slice(*[v if v is None or abs(v) >= 2 ** 62 else np.int64(v) for v in it[1:4]])
@@ -193,10 +195,26 @@ def canon_pd(a, data=True):
     """Canonical line of a real PipelineData."""
     fs = Fraction(float(a.fs))
     ts = []
-    for tj in np.asarray(a.t).tolist():
-        m = round(Fraction(tj) * fs)
-        r = Fraction(m) / fs
-        ts.append(frac(r) if float(r) == tj else repr(tj))
+    tarr = np.asarray(a.t, dtype=float)
+    P_, Q_ = fs.numerator, fs.denominator
+    if tarr.size > 256 and fs > 0 and np.all(np.isfinite(tarr)) and float(np.max(np.abs(tarr))) * float(fs) < 2.0 ** 52:
+        # long arrays: the same test vectorised.  m and fs are exact binary64 numbers, so the float quotient m / fs is the
+        # correct rounding of the exact rational m / fs, i.e. float(Fraction(m) / fs)
+        import math
+        m_arr = np.rint(tarr * float(fs))
+        good = (m_arr / float(fs)) == tarr
+        for tj, m, ok in zip(tarr.tolist(), m_arr.astype(np.int64).tolist(), good.tolist()):
+            if ok:
+                num = m * Q_
+                g = math.gcd(num, P_)
+                ts.append(f'{num // g}/{P_ // g}')
+            else:
+                ts.append(repr(tj))
+    else:
+        for tj in tarr.tolist():
+            m = round(Fraction(tj) * fs)
+            r = Fraction(m) / fs
+            ts.append(frac(r) if float(r) == tj else repr(tj))
     ch = a.channel
     if isinstance(ch, (list, tuple)):
         ch = [None if c is None else str(c) for c in ch]
@@ -208,6 +226,16 @@ def canon_pd(a, data=True):
     d = ilist(np.asarray(a).ravel().tolist()) if data else '*'
     return (f"arr shape={ilist(a.shape)} s0={int(a.s0)} fs={frac(fs)} ch={enc_ch(ch)} md={enc_md(md)} "
             f"nch={int(a.n_channels)} nep={'-' if nep is None else int(nep)} t={','.join(ts) if ts else '-'} data={d}")
+
+
+def _frac_of(x):
+    a, sep, b = x.partition('/')
+    if sep:
+        try:
+            return Fraction(int(a), int(b))
+        except ValueError:
+            pass
+    return Fraction(x)
 
 
 def parse_line(line):
@@ -228,7 +256,7 @@ def parse_line(line):
             return [] if s[2:] == '-' else [x for x in s[2:].split(',')]
         return s[2:]
     return {'shape': nums(f['shape']), 's0': int(f['s0']), 'fs': Fraction(f['fs']), 'ch': ch(f['ch']),
-            'md': md(f['md']), 't': [] if f['t'] == '-' else [Fraction(x) for x in f['t'].split(',')],
+            'md': md(f['md']), 't': [] if f['t'] == '-' else [_frac_of(x) for x in f['t'].split(',')],
             'data': None if f['data'] == '*' else nums(f['data'])}
 
 
@@ -419,7 +447,12 @@ class C11(Spec):
             'length <= 2 and every boolean mask of length N-1..N+1 as list and ndarray on the channel and epoch axes; '
             '(iii) split at every cut in [-N-3,N+3] (+ two-cut splits) and concat on each axis, altered pieces; '
             '(iv) seeded random chains of 1-3 index expressions from the whole grammar (Ellipsis, newaxis, several '
-            'lists) with arithmetic/copy/astype in between. Non-trivial = the case reaches a result array whose shape '
+            'lists) with arithmetic/copy/astype in between; (v) hardening: the same arguments spelled as NumPy scalars / '
+            'other integer dtypes / data dtypes and memory layouts / tuple labels / positional, keyword, default '
+            'constructor and concat arguments; slice bounds and steps up to 10^20 / 2^40, 2^16+3 samples, 3000 channels, '
+            '2500 epochs, s0 beyond 2^31 and 2^45, 300 pieces; the same expression twice and the source looked at '
+            'afterwards; split-concat-split-concat, nested and single-piece concats; label / metadata lists overwritten in '
+            'place by the caller (other arrays must keep theirs); two arrays differing in one parameter. Non-trivial = the case reaches a result array whose shape '
             'or annotations differ from the source, or an exception; distinct = distinct case hash.')
     exhaustive_note = {
         'quick': 'slices: all start/stop in [-5,5] u {None}, step in {None,1,2,3}, axis length 0..3, each axis/position; '
@@ -533,12 +566,18 @@ class C11(Spec):
         'axis': ['name', 'default', 'pos'], 'seq': ['tuple'],
     }
 
+    # bare integer entries as NumPy integers (x[np.int64(1)], x[:, np.int64(0)]): refused loudly by the code as found
+    # (TypeError / ValueError) although NumPy accepts them; generated only when this is switched on (after fix 4).
+    NPIDX = bool(os.environ.get('C11_NPIDX'))
+
     def rand_rep(self, rng, c):
         """another spelling of the same arguments (hardening item 1/2); the model lines do not change."""
         keys = sorted(self.REPS)
         rep = {}
         for k in rng.sample(keys, rng.choice([1, 1, 2, 3, len(keys)])):
             rep[k] = rng.choice(self.REPS[k])
+        if self.NPIDX and rng.random() < 0.5:
+            rep['npidx'] = True
         if 'chtuple' in rep and any((o['op'] == 'set' and o.get('inplace')) or
                                     (o['op'] == 'get' and any(it[0] == 'n' for it in o['idx']['items'])) for o in c['ops']):
             # a tuple cannot be overwritten in place; with np.newaxis in the channel slot the code tests
@@ -578,7 +617,11 @@ class C11(Spec):
         yield {'kind': 'scale', 'arrs': [big1], 'ops': [
             get(tup(sl(n - 2)), 0, 1), get(tup(sl(-70000, 3)), 0, 2), get(tup(sl(65535, 65538)), 0, 3),
             get({'t': 'one', 'items': [sl(None, None, 2 ** 14)]}, 0, 4), get(tup(E_, sl(2 ** 40)), 0, 5),
-            get(tup(sl(1)), 0, 6), get(tup(sl(None, 1)), 0, 7),
+            get(tup(sl(-2 ** 16 - 3, 2)), 0, 6), get(tup(sl(-2 ** 16 - 4, 2)), 0, 7), get(tup(sl(2 ** 16 + 2, 2 ** 16 + 9)), 0, 8)]}
+        # (results of that size are quadratic in the Lean model: the full-size restore is done on 2^12 + 3 samples)
+        mid = self.mk_arr([2 ** 12 + 3], s0=2 ** 31 - 2, fs=(27 * 2 ** 10, 1))
+        yield {'kind': 'scale', 'arrs': [mid], 'ops': [
+            get(tup(sl(1)), 0, 6), get(tup(sl(None, 1)), 0, 7), get(tup(sl(-5000, None)), 0, 8),
             {'op': 'concat', 'j': 30, 'dim': 'time', 'ks': [7, 6], 'expect': 'restore:0'}]}
         big2 = self.mk_arr([3, n // 3], s0=-(2 ** 33) - 5, fs=(27 * 2 ** 4, 1))
         yield {'kind': 'scale', 'arrs': [big2], 'ops': [
@@ -633,7 +676,7 @@ class C11(Spec):
         # ---- item 5: histories.  The same array indexed twice (same result, source untouched), the source looked at
         # after a whole chain, split -> concat -> split elsewhere -> concat, the same pieces concatenated twice,
         # a concat of one piece, concat results concatenated further (nested).
-        nrep = 400 if quick else 20000
+        nrep = 400 if quick else 10000
         for _ in range(nrep):
             arr = self.rand_arr(rng)
             idx = self.rand_index(rng, arr['shape'])
@@ -641,7 +684,7 @@ class C11(Spec):
             if self.ref_shape(arr['shape'], idx) and canonical_after(len(arr['shape']), idx):
                 ops += [{'op': 'fin', 'k': 1, 'j': 3, 'how': rng.choice(sorted(FIN))}, show(1), show(0)]
             yield {'kind': 'repeat', 'arrs': [arr], 'ops': ops}
-        nres = 300 if quick else 20000
+        nres = 300 if quick else 10000
         for _ in range(nres):
             arr = self.rand_arr(rng, maxn=6)
             nd = len(arr['shape'])
@@ -738,7 +781,7 @@ class C11(Spec):
                         yield c
 
         # ---- item 7: two arrays that differ in exactly one parameter, built one after the other, same expressions
-        npair = 300 if quick else 15000
+        npair = 300 if quick else 8000
         for _ in range(npair):
             a = self.rand_arr(rng)
             b = copy.deepcopy(a)
@@ -1147,7 +1190,8 @@ class C11(Spec):
                         out.append('err no-register')
                         continue
                     pieces = [regs[k] for k in op['ks']]
-                    before = [canon_pd(p_) for p_ in pieces]
+                    sig = lambda q: (q.shape, q.s0, q.fs, repr(q.channel), repr(q.metadata), q.dtype.str, np.asarray(q).tobytes())
+                    before = [sig(p_) for p_ in pieces]
                     seq = tuple(pieces) if rep.get('seq') == 'tuple' else list(pieces)
                     ax = rep.get('axis')
                     try:
@@ -1160,7 +1204,7 @@ class C11(Spec):
                         else:
                             r = P.concat(seq, axis={'time': -1, 'channel': -2, 'epoch': -3}[op['dim']])
                     finally:
-                        after = [canon_pd(p_) for p_ in pieces]
+                        after = [sig(p_) for p_ in pieces]
                         same_seq = len(seq) == len(pieces) and all(x is y for x, y in zip(seq, pieces))
                     if before != after or not same_seq:
                         out.append('arg-modified: concat changed the arrays it was given')
